@@ -1,1 +1,84 @@
-From Tevec Require Import Base.Prelude.
+(* Props/C05.v — property C05: rolling outputs are input-length and null exactly during warm-up. *)
+From Coq Require Import Reals List.
+From Tevec Require Import Base.Prelude Base.Num Base.XR Spec.Stats Model.Driver Model.Features
+     Proofs.Generic Proofs.Mask.
+Import ListNotations.
+
+(* (1) one output per input, for EVERY add-emit-remove rolling feature, any carrier, both driver
+   bodies (returned / caller buffer / fast path), every window >= 1: never a panic, never an
+   unwritten slot; empty in, empty out whatever the window *)
+Theorem C05_one_output_per_input :
+  forall (T St O : Type) (F : feat T St O) (w : nat) (xs : list T) (body : bool),
+    1 <= w -> exists out, ts_run F body w xs = Done out /\ length out = length xs.
+Proof. exact @ts_run_total. Qed.
+
+Theorem C05_empty_in_empty_out :
+  forall (T St O : Type) (F : feat T St O) (w : nat) (body : bool), ts_run F body w [] = Done [].
+Proof. exact @ts_run_empty. Qed.
+
+(* (2) the effective min_periods: omitted means floor(w/2); clamped to w; raised to the intrinsic
+   minimum k (0 sum/mean, 2 variance-type, 3 skewness, 4 kurtosis) *)
+Theorem C05_effective_min_periods :
+  forall (mp : option nat) (w k : nat),
+    mp_eff mp w k = Nat.max (Nat.min (match mp with Some m => m | None => w / 2 end) w) k.
+Proof. exact mp_eff_value. Qed.
+
+(* (3) the mask: output i is null exactly when the window holds fewer valid observations than the
+   effective min_periods (for the mean: or none at all) — and non-null otherwise *)
+Theorem C05_mask_ts_vsum :
+  forall (body : bool) (w : nat) (mp : option nat) (xs : list XR), 1 <= w ->
+    exists out, ts_run (ts_vsum_f w mp) body w xs = Done out /\ length out = length xs /\
+      forall i, i < length xs ->
+        exists o, nth_error out i = Some o /\ is_null o = below (mp_eff mp w 0) (valid (win w i xs)).
+Proof. exact mask_vsum. Qed.
+
+Theorem C05_mask_ts_vmean :
+  forall (body : bool) (w : nat) (mp : option nat) (xs : list XR), 1 <= w ->
+    exists out, ts_run (ts_vmean_f w mp) body w xs = Done out /\ length out = length xs /\
+      forall i, i < length xs ->
+        exists o, nth_error out i = Some o /\
+          is_null o = orb (below (mp_eff mp w 0) (valid (win w i xs))) (below 1 (valid (win w i xs))).
+Proof. exact mask_vmean. Qed.
+
+Theorem C05_mask_ts_vvar :
+  forall (body : bool) (w : nat) (mp : option nat) (xs : list XR), 1 <= w ->
+    exists out, ts_run (ts_vvar_f w mp) body w xs = Done out /\ length out = length xs /\
+      forall i, i < length xs ->
+        exists o, nth_error out i = Some o /\ is_null o = below (mp_eff mp w 2) (valid (win w i xs)).
+Proof. exact mask_vvar. Qed.
+
+Theorem C05_mask_ts_vstd :
+  forall (body : bool) (w : nat) (mp : option nat) (xs : list XR), 1 <= w ->
+    exists out, ts_run (ts_vstd_f w mp) body w xs = Done out /\ length out = length xs /\
+      forall i, i < length xs ->
+        exists o, nth_error out i = Some o /\ is_null o = below (mp_eff mp w 2) (valid (win w i xs)).
+Proof. exact mask_vstd. Qed.
+
+Theorem C05_mask_ts_vskew :
+  forall (body : bool) (w : nat) (mp : option nat) (xs : list XR), 1 <= w ->
+    exists out, ts_run (ts_vskew_f w mp) body w xs = Done out /\ length out = length xs /\
+      forall i, i < length xs ->
+        exists o, nth_error out i = Some o /\ is_null o = below (mp_eff mp w 3) (valid (win w i xs)).
+Proof. exact mask_vskew. Qed.
+
+Theorem C05_mask_ts_vkurt :
+  forall (body : bool) (w : nat) (mp : option nat) (xs : list XR), 1 <= w ->
+    exists out, ts_run (ts_vkurt_f w mp) body w xs = Done out /\ length out = length xs /\
+      forall i, i < length xs ->
+        exists o, nth_error out i = Some o /\ is_null o = below (mp_eff mp w 4) (valid (win w i xs)).
+Proof. exact mask_vkurt. Qed.
+
+(* non-vacuity: a window of 2 over [1, NaN, 3] with min_periods 2 *)
+Example C05_example :
+  exists out, ts_run (ts_vsum_f (A := XR) 2 (Some 2)) true 2 [Some 1%R; None; Some 3%R] = Done out /\ length out = 3.
+Proof. apply C05_one_output_per_input. auto. Qed.
+
+Print Assumptions C05_one_output_per_input.
+Print Assumptions C05_empty_in_empty_out.
+Print Assumptions C05_effective_min_periods.
+Print Assumptions C05_mask_ts_vsum.
+Print Assumptions C05_mask_ts_vmean.
+Print Assumptions C05_mask_ts_vvar.
+Print Assumptions C05_mask_ts_vstd.
+Print Assumptions C05_mask_ts_vskew.
+Print Assumptions C05_mask_ts_vkurt.
